@@ -64,7 +64,8 @@ theorem prim_valEq_iff_key (F : FloatFacts) {x y : Val} (hp : x.isNSB) (hs : Sep
   (prim_valEq_iff_render F hp hs).trans (prim_render_iff_key hp hs)
 
 /-- times: equal instants displayed in the same zone have the same key (the converse needs the
-injectivity of the calendar rendering, which is not proved here) -/
+injectivity of the calendar rendering:
+`key_eq_iff_valEq` in `Yae/Proofs/ValRelTextCor.lean`) -/
 theorem time_valEq_imp_key {a b : TimeV} (hs : Sep (.time a) (.time b))
     (h : valEq (.time a) (.time b) = true) : (Val.time a).key? = (Val.time b).key? := by
   cases hs with
